@@ -114,3 +114,42 @@ Definition verdicts_C07 (cs : list rtcase) : list N := map (verdict_with C07_ok)
 (* coverage: which model branches a case reaches (direct host only) *)
 Definition branches (c : rtcase) : list nat :=
   match c with (core, _, p, _, acts, _) => if core then [] else direct_log FUEL0 p acts end.
+
+(* ---------- C05: one command under many hosts ---------- *)
+Definition hstep := (list oeff * list event * option bool)%type.
+Definition obool_agree (check_done : bool) (a b : option bool) : bool :=
+  match a, b with Some x, Some y => negb check_done || Bool.eqb x y | _, _ => true end.
+Definition hstep_eqb (check_done : bool) (a b : hstep) : bool :=
+  match a, b with (e1, v1, d1), (e2, v2, d2) =>
+    list_eqb oeff_eqb e1 e2 && list_eqb event_eqb v1 v2 && obool_agree check_done d1 d2 end.
+Definition has_abort (inputs : list action) : bool :=
+  existsb (fun a => match a with AAbort _ => true | _ => false end) inputs.
+(* the property itself, on implementation traces only: every host shows what the direct host shows,
+   step for step.  is_done is compared unless a hosted command was aborted (an abort wakes nobody, so
+   a wrapper notices it at its next poll; the property speaks of effects and events) *)
+Definition C05_ok (inputs : list action) (traces : list (list hstep)) : bool :=
+  match traces with
+  | [] => false
+  | base :: others => forallb (fun t => list_eqb (hstep_eqb (negb (has_abort inputs))) base t) others
+  end.
+(* the model's direct trace for the schedule [inspect; input; inspect; ...], folded to hsteps *)
+Fixpoint fold_hsteps (t : list obs) : option (list hstep) :=
+  match t with
+  | [] => Some []
+  | OEffects e1 :: OEvents v :: OEffects e2 :: ODone d _ :: rest =>
+      match fold_hsteps rest with Some r => Some ((e1 ++ e2, v, Some d) :: r) | None => None end
+  | _ :: rest => fold_hsteps rest      (* the observation of the input itself *)
+  end.
+Definition hcase := (cmd * list action * list action * list (list hstep))%type.
+Definition verdict_C05 (c : hcase) : N :=
+  match c with (p, inputs, acts, traces) =>
+    if negb (C05_ok inputs traces) then 2%N else
+    match direct FUEL0 p acts with
+    | None => 3%N
+    | Some t => match fold_hsteps t, traces with
+                | Some m, base :: _ => if list_eqb (hstep_eqb true) m base then 0%N else 1%N
+                | _, _ => 1%N
+                end
+    end
+  end.
+Definition verdicts_C05 (cs : list hcase) : list N := map verdict_C05 cs.
